@@ -81,7 +81,7 @@ PART_PATTERNS = collections.OrderedDict(
         ('MINOR'  , r"[0-9]+"),
         ('PATCH'  , r"[0-9]+"),
         ('BUILD'  , r"[0-9]+"),
-        ('BLD'    , r"[1-9][0-9]*"),
+        ('BLD'    , r"0|[1-9][0-9]*"),
         ('TAG'    , r"preview|final|dev|alpha|beta|post|rc"),
         ('PYTAG'  , r"dev|post|rc|a|b"),
         ('GITHASH', r"\.[0-9]+\+.*"),
